@@ -203,6 +203,11 @@ ADDENDA = {
     "C02": "Also decided: every normal exit of a decrypt() is an explicit return of the verified result and no exception handler completes normally; "
            "assuming direct mode no completing path avoids the non-empty-encrypted-key rejection; the JSON aad member is authenticated for every JSON "
            "serialization class; a keep-first-and-compare CEK idiom must establish equality on every continuing path.",
+    "C03": "Also decided (R03.7): for the compact serialization the round trip is a term identity - composing the byte terms of sign_compact, extract_compact and "
+           "verify_compact symbolically, under three stated codec laws (split of dot-free segments, B64D(B64U(x)) = x, JSON header round trip), yields obj.payload, "
+           "obj.headers() and alg.verify(I, alg.sign(I, key), key) over the produced signing input.",
+    "C04": "Also decided (R04.7): for the compact serialization, composing perform_encrypt, represent_compact, extract_compact and _perform_decrypt symbolically under the same "
+           "codec laws hands enc.decrypt exactly (C, T) = enc.encrypt(M, cek, iv, aad), the same iv and the same aad.",
     "C05": "Also decided: compression is looked up whenever a zip value is present (presence, not truthiness), so every unknown zip value reaches the refusing lookup.",
     "C06": "Also decided: the PEM / SSH prefix test is evaluated for every imported secret (no pre-filter in front of it).",
     "C07": "Also decided: the b64=false attach pattern admits no '.', so an attached unencoded payload never adds a segment.",
